@@ -541,8 +541,10 @@ def _whitespace(repo, rep):
     ok = bool(reps) and len(reps[0].args) == 5
     if ok:
         ws = reps[0].args[3]
-        ok = isinstance(ws, A.Alt) and "start['namespace'] == TAL" in ws.test \
-            and A.show(ws.a) == "''" and "_whitespace" in A.show(ws.b, limit=6)
+        tst = "start['namespace'] == TAL"
+        ok = L.decides_on(ws, tst) and \
+            A.show(L.branch(ws, tst, True)) == "''" and \
+            "_whitespace" in A.show(L.branch(ws, tst, False), limit=6)
     rep.check(ok, "R08.4", site, "an ordinary element repeats with the "
               "captured separator; a tal: element (no tag of its own) with "
               "none", construct="repeat-whitespace", where=wh)
